@@ -94,7 +94,42 @@ func intentionListToIntermediateRBACForm(
 		}
 		rbacIxns = append(rbacIxns, rixn)
 	}
-	return rbacIxns, nil
+	return removeShadowedSourceIntentions(rbacIxns), nil
+}
+
+// removeShadowedSourceIntentions drops every intention whose source is strictly
+// contained in the source of a higher-precedence intention that was kept. Such an
+// intention can never be the first one to match a caller: everything it matches is
+// matched by the higher-precedence intention first.
+//
+// This happens when a wildcard-source intention on the exact destination sits above
+// an exact-source intention on a wildcard destination:
+//
+//	"*"   -> web : DENY  (prec=8)
+//	"api" -> "*" : ALLOW (prec=6)
+//
+// removeSourcePrecedence only subtracts a higher-precedence source from a later one
+// when it is a strict subset of it, so without this step "api" would be allowed.
+//
+// The input is sorted by descending precedence.
+func removeShadowedSourceIntentions(rbacIxns []*rbacIntention) []*rbacIntention {
+	out := rbacIxns[:0:0]
+	for _, rixn := range rbacIxns {
+		shadowed := false
+		for _, prev := range out {
+			if ixnSourceMatches(rixn.Source, prev.Source) {
+				shadowed = true
+				break
+			}
+		}
+		if !shadowed {
+			out = append(out, rixn)
+		}
+	}
+	if len(out) == len(rbacIxns) {
+		return rbacIxns
+	}
+	return out
 }
 
 func removeSourcePrecedence(rbacIxns []*rbacIntention, intentionDefaultAction intentionAction, localInfo rbacLocalInfo) []*rbacIntention {
